@@ -57,9 +57,17 @@ def fill_groups(rng, c, h, ordout, full_only=False):
 def histories(rng, tier):
     n = 400 if tier == 'quick' else 2500
     out = []
-    for _ in range(n):
+    for hi in range(n):
+        forced_big = hi < 16          # a fixed share of every run: std over large-offset values
         kind = rng.choice(['flt', 'flt', 'int', 'int', 'bool', 'rec', 'wide'])
+        if forced_big:
+            kind = rng.choice(['flt', 'int'])
         c = gen.rand_cfg(rng, kinds=[kind], max_npix=768, name='m', min_delta=1)
+        if forced_big:
+            c.dtype = 'f8' if kind == 'flt' else rng.choice(['i8', 'i4'])
+            if c.sentinel not in ('default', '0'):
+                c.sentinel = 'default'
+
         c.covpix = []
         if c.kind == 'rec' and rng.random() < 0.7:
             # avoid the None-clear / custom sentinels here; C14 covers them
@@ -71,6 +79,8 @@ def histories(rng, tier):
             red = rng.choice(['and', 'or'])
         else:
             red = rng.choice(FLOAT_REDS + ['wmean'])
+        if forced_big:
+            red = 'std'
         # allocated-but-empty blocks: a pre-allocated coverage pixel that never receives a valid pixel
         # (the weight map below does not have it, or has it elsewhere)
         empty_block = rng.random() < 0.35
@@ -78,7 +88,7 @@ def histories(rng, tier):
             c.covpix = [rng.randrange(c.ncov)]
         h = [c.line()]
         pix = fill_groups(rng, c, h, ordout, full_only=(red == 'and'))
-        if c.kind == 'plain' and c.dtype in ('f8', 'i8', 'i4', 'u4', 'u8') and rng.random() < 0.3 \
+        if c.kind == 'plain' and c.dtype in ('f8', 'i8', 'i4', 'u4', 'u8') and (forced_big or rng.random() < 0.3) \
                 and red in ('std', 'std', 'mean', 'median', 'max', 'min', 'wmean'):
             # values with a LARGE common offset (their squares are not representable: a one-pass
             # E[x^2] - E[x]^2 variance cancels catastrophically; seeded change C07d), half of the time all
